@@ -29,12 +29,15 @@ pub enum Shape {
     HugeDeclaredRecord,
     /// endless stream of small non-ClientHello handshake records
     SmallNonHelloRecords,
+    /// every segment carries many small well-formed non-ClientHello handshake records
+    ManyRecordsPerSegment,
     /// random bytes without SYN
     RandomNoSyn,
     /// timestamped ACK segments only (uptime tracker)
     TimestampedAcks,
 }
-pub const SHAPES: [Shape; 11] = [
+pub const SHAPES: [Shape; 12] = [
+    Shape::ManyRecordsPerSegment,
     Shape::HttpHeadNeverCompletes,
     Shape::SynThenBinary,
     Shape::RequestThenEndlessBody,
@@ -142,6 +145,12 @@ impl ShapeGen {
             }
             (Shape::HugeDeclaredRecord, _) => {
                 let p = self.filler(0x55);
+                self.pkt(true, fr::ACK | fr::PSH, p)
+            }
+            (Shape::ManyRecordsPerSegment, _) => {
+                let rec = [0x16u8, 0x03, 0x03, 0x00, 0x04, 0x0e, 0x00, 0x00, 0x00];
+                let n = (self.seg / rec.len()).max(2);
+                let p: Vec<u8> = rec.iter().cycle().take(n * rec.len()).copied().collect();
                 self.pkt(true, fr::ACK | fr::PSH, p)
             }
             (Shape::SmallNonHelloRecords, _) => self.pkt(true, fr::ACK | fr::PSH, vec![0x16, 0x03, 0x03, 0x00, 0x04, 0x0e, 0x00, 0x00, 0x00]),
@@ -259,7 +268,7 @@ pub fn judge(m: &Measure, seg: usize, conns: usize, limit_per_conn: i64) -> Verd
 
 /// is the (analyzer, shape) combination inside the recorded HTTP finding?
 pub fn http_finding_applies(kind: Kind, shape: Shape) -> bool {
-    matches!(kind, Kind::Http | Kind::Unified) && matches!(shape, Shape::HttpHeadNeverCompletes | Shape::SynThenBinary | Shape::EndlessServerData | Shape::HugeDeclaredRecord | Shape::NonHelloHandshakeThenAppData | Shape::HelloThenAppData | Shape::SmallNonHelloRecords | Shape::RequestThenEndlessBody | Shape::ExchangeThenEndlessResponse)
+    matches!(kind, Kind::Http | Kind::Unified) && matches!(shape, Shape::HttpHeadNeverCompletes | Shape::SynThenBinary | Shape::EndlessServerData | Shape::HugeDeclaredRecord | Shape::NonHelloHandshakeThenAppData | Shape::HelloThenAppData | Shape::SmallNonHelloRecords | Shape::ManyRecordsPerSegment | Shape::RequestThenEndlessBody | Shape::ExchangeThenEndlessResponse)
 }
 
 pub fn run(ctx: &Ctx) {
@@ -273,7 +282,7 @@ pub fn run(ctx: &Ctx) {
     // measured single-threaded per case (counters are per thread), cases spread over the rayon pool
     ctx.run_indexed(
         "single-connection-histories",
-        "11 traffic shapes (HTTP-looking head that never completes, SYN then binary, request then endless body, exchange then endless response, endless server data, ClientHello then application data, non-ClientHello handshake record then application data, huge declared record length, endless small non-ClientHello records, random bytes without SYN, timestamped ACKs) x {TCP, HTTP, TLS, unified} analyzer x N segments of 700 bytes (quick N = 3000; thorough N = 120000; shapes inside the recorded quadratic HTTP finding are capped at 1200 / 4000); oracle: counting allocator, no growth of retained bytes and no growth of bytes allocated per packet with the packet index; non-trivial: every history",
+        "12 traffic shapes (many small non-ClientHello handshake records per segment, HTTP-looking head that never completes, SYN then binary, request then endless body, exchange then endless response, endless server data, ClientHello then application data, non-ClientHello handshake record then application data, huge declared record length, endless small non-ClientHello records, random bytes without SYN, timestamped ACKs) x {TCP, HTTP, TLS, unified} analyzer x N segments of 700 bytes (quick N = 3000; thorough N = 120000; shapes inside the recorded quadratic HTTP finding are capped at 1200 / 4000); oracle: counting allocator, no growth of retained bytes and no growth of bytes allocated per packet with the packet index; non-trivial: every history",
         true,
         nc,
         |i, st| {
@@ -287,7 +296,7 @@ pub fn run(ctx: &Ctx) {
             st.sample(|| json!({"analyzer": format!("{:?}", k), "shape": format!("{:?}", s), "segments": n, "measured": v.detail}));
             if v.grows || v.superlinear {
                 let what = format!("{:?}:{:?}:{}", k, s, if v.grows { "retained-memory-grows-with-history" } else { "work-per-packet-grows-with-history" });
-                if known && ctx.is_known(K_HTTP) && matches!(s, Shape::HttpHeadNeverCompletes | Shape::SynThenBinary | Shape::EndlessServerData | Shape::HugeDeclaredRecord | Shape::NonHelloHandshakeThenAppData | Shape::HelloThenAppData | Shape::SmallNonHelloRecords) {
+                if known && ctx.is_known(K_HTTP) && matches!(s, Shape::HttpHeadNeverCompletes | Shape::SynThenBinary | Shape::EndlessServerData | Shape::HugeDeclaredRecord | Shape::NonHelloHandshakeThenAppData | Shape::HelloThenAppData | Shape::SmallNonHelloRecords | Shape::ManyRecordsPerSegment) {
                     st.known(K_HTTP);
                 } else {
                     st.fail(Fail::new(what, v.detail), json!({"analyzer": format!("{:?}", k), "shape": format!("{:?}", s), "segments": n}));
